@@ -231,6 +231,11 @@ class C10(Scenario):
             op = rand_op()
             if op[0] in ("create",) and v.apply(op):
                 pre.append(op)
+        between = []
+        if rng.random() < 0.3:
+            op = rand_op()
+            if v.apply(op):
+                between.append(op)
         npolls = rng.randrange(1, 5)
         for _ in range(npolls):
             ops = []
@@ -245,7 +250,7 @@ class C10(Scenario):
         if not racing and k > 0:
             fault = {"poll": 1 + (group % len(rounds)), "call": k - 1, "errno": ["ENOENT", "ENOTDIR", "EACCES"][(group // 3 + k) % 3]}
         sched = draw_sched(cfg, line=racing, pct_k=800, step_cap=200_000, horizon=3600)
-        return {"pre": pre, "rounds": rounds, "recursive": recursive, "racing": racing, "fault": fault, "interval": 1.0, "sched": sched}
+        return {"pre": pre, "between": between, "rounds": rounds, "recursive": recursive, "racing": racing, "fault": fault, "interval": 1.0, "sched": sched}
 
     def shrink(self, case):
         for ri in range(len(case["rounds"]) - 1, -1, -1):
@@ -310,6 +315,8 @@ class C10(Scenario):
 
             obs = api.BaseObserver(functools.partial(Em, stat=vfs.stat, listdir=vfs.listdir), timeout=interval)
             obs.schedule(H(), ROOT, recursive=case["recursive"])
+            for op in case.get("between", []):  # the baseline is the tree at start(), not at schedule()
+                vfs.apply(op)
             hist["states"][0] = vfs.state()
             obs.start()
             t0 = sim.now
@@ -357,7 +364,7 @@ class C10(Scenario):
                 v += self.oracle_racing(case, hist) if case["racing"] else self.oracle_exact(case, hist, holder["vfs"], sim)
             vfs = holder["vfs"]
             return v, {"sample": {"rounds": case["rounds"], "fault": case["fault"], "events": hist["events"][:20]},
-                       "hist_key": key_of([case["pre"], case["rounds"], case["recursive"], case["fault"], case["racing"]]), "nontrivial": bool(vfs.fault_log)}
+                       "hist_key": key_of([case["pre"], case.get("between"), case["rounds"], case["recursive"], case["fault"], case["racing"]]), "nontrivial": bool(vfs.fault_log)}
 
         return self.simulate(case, sched_seed, trace, install, main, finish)
 
